@@ -5,6 +5,7 @@ Traced from the LIVE code on a symbolic pandas Series `pva`
 
   sysmat3d   InsErrorModel(True).system_matrices(pva)   -> F00..F88 (9x9), G00..G82 (B_gyro 9x3), A00..A82 (B_accel 9x3)
   sysmat2d   InsErrorModel(False).system_matrices(pva)  -> F00..F66 (7x7), G00..G62, A00..A62
+  tr32 / tr23  InsErrorModel(False)._transform_3d_2d(VN, VE) (9x7) and TRANSFORM_2D_3D (7x9)
   prop3d / prop2d
              one step of the recursion of error_model.propagate_errors: the REAL function is run on a two-row
              trajectory; only InsErrorModel.system_matrices / transform_to_internal / transform_to_output are
@@ -59,6 +60,28 @@ def _sysmat(with_altitude):
 
 traced('C04Gen', 'sysmat3d', PVA)(_sysmat(True))
 traced('C04Gen', 'sysmat2d', PVA)(_sysmat(False))
+
+
+# ----- the 7-state reduction matrices (the same live objects system_matrices uses) ----------
+
+def _plain(prefix, a, shape):
+    a = np.asarray(a)
+    if a.shape != shape:
+        raise TraceError(f"unexpected shape {a.shape} for {prefix}, wanted {shape}")
+    return {f"{prefix}{i}{j}": a[i, j] for i in range(shape[0]) for j in range(shape[1])}
+
+
+@traced('C04Gen', 'tr32', [('VN', VEL), ('VE', VEL)])
+def _(V, A):
+    return _plain('t', InsErrorModel(False)._transform_3d_2d(V('VN'), V('VE')), (9, 7))
+
+
+@traced('C04Gen', 'tr23', [])
+def _(V, A):
+    m = InsErrorModel.TRANSFORM_2D_3D
+    if A([1.0]).dtype == object:
+        m = sym._obj(m)
+    return _plain('t', m, (7, 9))
 
 
 # ----- one step of propagate_errors' recursion --------------------------------------------
